@@ -3,9 +3,9 @@ import MirVerif.Model.DocModes
 # C15 — deviations of the current checker from MIR.md that are listed as known findings
 
 `knownDeviations` is the ONE line to edit when a finding gets fixed in /repo: remove the
-constructor from the list (for a table-level defect such as `laddrDstNotOut` nothing else
-changes; for a defect in the code of `MIR_finish_func`/`MIR_insn_op_mode` the model in
-`Model/Check.lean` has to follow the fixed code as well).  `Props/C15.lean` proves that the grid
+constructor from the list (for a table-level defect nothing else changes; for a defect in the code of
+`MIR_new_insn_arr`/`MIR_finish_func`/`MIR_insn_op_mode` the model in `Model/Check.lean` has to
+follow the fixed code as well).  `Props/C15.lean` proves that the grid
 agrees with the documentation *exactly* outside the cells covered by this list and disagrees on
 every covered cell, so both a forgotten entry and a stale entry break the proof gate.
 -/
@@ -13,59 +13,30 @@ namespace MirVerif.Check
 open MirVerif.Gen.C15
 
 inductive Deviation where
-  /-- `laddr`'s destination lacks OUT_FLAG in `insn_descs`: immediates/refs accepted as output -/
-  | laddrDstNotOut
-  /-- `MIR_insn_op_mode` returns the operand's own mode for the 2nd operand of `addr*`:
-      immediates and labels are accepted where a variable is required -/
-  | addrSrcNotVar
-  /-- undef-typed memory as va_list is rejected with `wrong_type` before the special case is reached -/
-  | vaListUndefMem
-  /-- `prset`'s first operand has mode `MIR_OP_UNDEF` in `insn_descs`: anything is accepted -/
-  | prsetDstNotVar
   /-- property constant created with `MIR_new_uint_op` is rejected -/
   | propUintRejected
-  /-- `ret` with the wrong number of operands: NULL dereference while formatting the message -/
-  | retCountCrash
-  /-- `MIR_insn_op_mode` has no `case MIR_JCALL`: arguments unchecked, `op_modes[nop]` read out of bounds -/
-  | jcallUnchecked
-  /-- call target given as a reference to a non-callable item: assert failure / silent acceptance -/
-  | callRefNotCallable
   deriving DecidableEq, Repr, Inhabited
 
+/- History: `laddrDstNotOut` (fixed 6cabb311), `addrSrcNotVar` (d055fe2e), `vaListUndefMem` (5ff22cdb),
+`prsetDstNotVar` (0147517d), `retCountCrash` (e6c2b500), `jcallUnchecked` (27244d2d),
+`callRefNotCallable` (37892d9f) were listed here until the defects were fixed in /repo; their pinned
+replays are regressions in corpus/C15/regress.txt. -/
+
 /-- THE list.  After a fix in /repo delete the corresponding entry. -/
-def knownDeviations : List Deviation :=
-  [.laddrDstNotOut, .addrSrcNotVar, .vaListUndefMem, .prsetDstNotVar, .propUintRejected, .retCountCrash, .jcallUnchecked, .callRefNotCallable]
+def knownDeviations : List Deviation := [.propUintRejected]
 
 def Deviation.signature : Deviation → String
-  | .laddrDstNotOut => "C15:laddr-dst-not-out"
-  | .addrSrcNotVar => "C15:addr-src-not-var"
-  | .vaListUndefMem => "C15:va-list-undef-mem-rejected"
-  | .prsetDstNotVar => "C15:prset-dst-not-var"
   | .propUintRejected => "C15:prop-uint-rejected"
-  | .retCountCrash => "C15:ret-count-null-deref"
-  | .jcallUnchecked => "C15:jcall-args-unchecked"
-  | .callRefNotCallable => "C15:call-ref-not-callable"
 
 /-- positions of the fixed-arity grid a deviation applies to -/
 def Deviation.at (d : Deviation) (c i : Nat) : Bool :=
   match d with
-  | .laddrDstNotOut => c == C_LADDR && i == 0
-  | .addrSrcNotVar => isAddr c && i == 1
-  | .vaListUndefMem =>
-    ((c == C_VA_START || c == C_VA_END) && i == 0) || ((c == C_VA_ARG || c == C_VA_BLOCK_ARG) && i == 1)
-  | .prsetDstNotVar => c == C_PRSET && i == 0
   | .propUintRejected => (c == C_PRSET && i == 1) || ((c == C_PRBEQ || c == C_PRBNE) && i == 2)
-  | _ => false
 
 /-- operand kinds on which the verdicts differ there -/
 def Deviation.ops (d : Deviation) (o : OpA) : Bool :=
   match d with
-  | .laddrDstNotOut => hasClass o .int && !(isReg o || isMem o)
-  | .addrSrcNotVar => (match o with | .int | .float | .double | .ldouble | .label => true | _ => false)
-  | .vaListUndefMem => isUndefMem o
-  | .prsetDstNotVar => !(isReg o || isMem o)
   | .propUintRejected => o == .uint
-  | _ => false
 
 /-- is the cell covered by a listed deviation -/
 def deviates (c i : Nat) (o : OpS) : Bool := knownDeviations.any (fun d => d.at c i && d.ops o.absDoc)
